@@ -373,7 +373,26 @@ def build_objects(d):
     for s, f in zip((s1, s2), d.get("force64", (False, False))):
         if f:
             s._seq_code = s.code.astype(np.uint64)
-    sm = align.SubstitutionMatrix(d["A"][0], d["A"][1], d["matrix"].astype(d["mdtype"]))
+    # the scores are handed over in the caller's own array, which the caller goes on using: a scratch buffer that is
+    # sliced / transposed for the call and overwritten afterwards.  The matrix object keeps the scores it was given.
+    mat = np.array(d["matrix"]).astype(d["mdtype"])
+    k1, k2 = mat.shape
+    how = (int(np.abs(d["matrix"]).sum()) + len(d["c1"]) + 3 * len(d["c2"])) % 4
+    if how == 1:
+        buf = np.zeros((k1 + 1, k2 + 2), dtype=mat.dtype)
+        buf[:k1, :k2] = mat
+        sm = align.SubstitutionMatrix(d["A"][0], d["A"][1], buf[:k1, :k2])
+        buf[...] = 77
+    elif how == 2:
+        buf = np.ascontiguousarray(mat.T)
+        sm = align.SubstitutionMatrix(d["A"][0], d["A"][1], buf.T)
+        buf[...] = -55
+    elif how == 3:
+        buf = mat.copy()
+        sm = align.SubstitutionMatrix(d["A"][0], d["A"][1], buf)
+        buf[...] = 0
+    else:
+        sm = align.SubstitutionMatrix(d["A"][0], d["A"][1], mat)
     return s1, s2, sm
 
 
